@@ -8,6 +8,7 @@
     C14_group_ok          every group returned by the pass is `GroupOK`
     C14_group_check_sound the executable group checker used on native-order runs is sound
     C14_task              the fused sub-graph (nested groups at any position) computes what the unfused member tasks compute
+    C14_task_counterexample   witness of the open finding D60 (one-partition nested group in an n-partition group)
     C14_meta              npartitions / ndim (meta) of `Fused G` are those of `G[0]`
     C14_terminates        a successful pass strictly decreases the number of reachable blockwise nodes
     C14_loop_terminates   hence the outer loop of `optimize_blockwise_fusion` stops
@@ -122,6 +123,40 @@ example : fusedValue I1 dag3 f8 0 ev1 40 =
   C14_task I1 dag3 f8 0 ev1 (by decide) (by decide) 40 40 (by decide) (by decide)
 /-- … and the value is the one of the completely unfused plan -/
 example : fusedValue I1 dag3 f8 0 ev1 40 = run I1 (refGraph dag3) (fun k => some (ev1 k)) 40 (FKey.part 7 0) := by
+  decide
+
+/-! #### OPEN FINDING D60: a one-partition nested group inside an n-partition group.
+
+  Full statement (false for the current code): `C14_task` for every `Fused` node whose nested groups
+  have the partition count of the enclosing group *or a single partition* (broadcast), as ordinary
+  members may.  `C14_task` above is the proven part: `fusedOK` requires a nested group to have the
+  partition count of the enclosing one.  With `Fused._task` entering a broadcast nested group with
+  `i = 0 if self._broadcast_dep(_expr) else index` the full statement is provable (done in a scratch
+  development; not part of the tree because the code does not do it).
+
+  Witness — the plan of   sc = ((df.a.sum() + 1) * 2).optimize(); q = df.a + sc   (2 partitions):
+  0 FromPandas, 1 `df.a`, 2 chunk, 3 = Fused[2,1], 4 TreeReduce, 5 `+ 1`, 6 `* 2`,
+  7 = Fused[6,5] = sc (ONE partition), 8 `df.a + sc`, 9 = Fused[8,1,7].  For partition 1 the nested
+  group 7 is registered as `(7, 1) ↦ T7 ↦ (6, 1)` while member 8 refers to `(7, 0)` and member 6 is
+  keyed `(6, 0)`. -/
+
+namespace C14Ex
+def dagD60 : Dag :=
+  [ ⟨0, false, 2, 2, [], false, []⟩, ⟨1, true, 2, 1, [0], false, []⟩, ⟨2, true, 2, 0, [1], false, []⟩,
+    ⟨3, true, 2, 0, [0], true, [2, 1]⟩, ⟨4, false, 1, 0, [3], false, []⟩, ⟨5, true, 1, 0, [4], false, []⟩,
+    ⟨6, true, 1, 0, [5], false, []⟩, ⟨7, true, 1, 0, [4], true, [6, 5]⟩, ⟨8, true, 2, 1, [1, 7], false, []⟩,
+    ⟨9, true, 2, 1, [0, 4], true, [8, 1, 7]⟩ ]
+def f9 : Node := ⟨9, true, 2, 1, [0, 4], true, [8, 1, 7]⟩
+end C14Ex
+
+/-- the checker rejects the witness (it is outside the proven fragment) … -/
+theorem C14_task_counterexample_check : fusedOK dagD60 f9 = false := by decide
+
+/-- … and for partition 1 the fused task does not compute what the unfused member tasks compute
+    (partition 0 is fine). -/
+theorem C14_task_counterexample :
+    fusedValue I1 dagD60 f9 1 ev1 40 ≠ run I1 (refGraph dagD60) (fun k => some (ev1 k)) 40 (FKey.part 8 1) ∧
+    fusedValue I1 dagD60 f9 0 ev1 40 = run I1 (refGraph dagD60) (fun k => some (ev1 k)) 40 (FKey.part 8 0) := by
   decide
 
 /-! ### 3. meta -/
